@@ -862,3 +862,44 @@ def main(ctx):
     ctx.histories("chains", roots, execute, depth=ctx.pick(3, 4), nodedup_depth=ctx.pick(2, 3),
                   bounds=dict(menu=[repr(m) for m in MENU], operations=ctx.pick(2, 3),
                               root_fields=F, max_root_fields=2, shapes=MAIN_SHAPES))
+
+    # ------------------------------------------------------------ call sequences
+    # sequences of field-function calls in one process: two arrays with the SAME field names but different
+    # types/shapes/byte order, and name lists that are reused from call to call (mc/worlds.py call_sequences):
+    # a layout cache keyed by names only, or a function that edits the caller's list of names, shows up as a
+    # call whose result depends on the earlier calls
+    from mc.worlds import call_sequences
+
+    def seq_pool():
+        a = np.zeros(3, dtype=[("x", ">f8"), ("v", "<i2", (2,)), ("s", "S3"), ("b", "i1")])
+        a["x"] = [1.5, -2.0, 3.25]
+        a["v"] = [[1, 2], [3, 4], [5, 6]]
+        a["s"] = [b"a", b"", b"abc"]
+        a["b"] = [1, -2, 3]
+        b = np.zeros(3, dtype=[("x", "<i4"), ("v", "<f4", (3,)), ("s", "S5"), ("b", ">u2")])
+        b["x"] = [7, 8, 9]
+        b["v"] = np.arange(9).reshape(3, 3) + 0.5
+        b["s"] = [b"hello", b"w", b""]
+        b["b"] = [10, 20, 65535]
+        return dict(a=a, b=b, names_sx=["s", "x"], names_vb=["v", "b"], names_all=["x", "v", "s", "b"])
+
+    SEQ_CALLS = [(fn, arr, nm) for fn in ("extract", "remove", "reorder") for arr in ("a", "b")
+                 for nm in ("names_sx", "names_vb")] + [("extract", "a", "names_all"), ("split", "a", "names_sx"),
+                                                       ("split", "b", "names_sx"), ("add", "a", None), ("add", "b", None)]
+
+    def seq_run(c, pool):
+        fn, arr, nm = c
+        x = pool[arr]
+        if fn == "extract":
+            r = nu.extract_fields(x, pool[nm])
+        elif fn == "remove":
+            r = nu.remove_fields(x, pool[nm])
+        elif fn == "reorder":
+            r = nu.reorder_fields(x, pool[nm])
+        elif fn == "split":
+            return [np.asarray(v) for v in nu.split_fields(x, fields=pool[nm])]
+        else:
+            r = nu.add_fields(x, [("n", "f4"), ("t", "S2")])
+        return [r, np.array(repr(r.dtype.descr))]
+
+    call_sequences(ctx, "call-sequences", seq_pool, SEQ_CALLS, seq_run, lambda: [nu], depth=ctx.pick(3, 3), nodedup_depth=3)
